@@ -18,9 +18,12 @@ def build_rlib(repo=None):
     if os.path.exists(marker):
         return d
     os.makedirs(extract.CACHE, exist_ok=True)
+    import time
     for f in os.listdir(extract.CACHE):
-        if f.startswith('rlib-'):
-            shutil.rmtree(os.path.join(extract.CACHE, f), ignore_errors=True)
+        fp = os.path.join(extract.CACHE, f)
+        # other runs (kill tests, parallel checks) may still be using a recent build: only prune stale ones
+        if f.startswith('rlib-') and time.time() - os.path.getmtime(fp) > 1800:
+            shutil.rmtree(fp, ignore_errors=True)
     tmp = tempfile.mkdtemp(prefix='wit.')
     try:
         env = dict(os.environ)
